@@ -51,36 +51,66 @@ func (c *Clock) Next() int64 { return atomic.AddInt64(&c.n, 1) }
 
 // Server is one scripted upstream.
 type Server struct {
-	Name   string
-	clock  *Clock
-	mu     sync.Mutex
-	ln     net.Listener
-	addr   string
-	script []Step
-	at     int
-	nConn  int
-	msgs   []*Msg
-	conns  map[net.Conn]bool
-	closed bool
-	wg     sync.WaitGroup
-	events []string
-	stopCh chan struct{}
-	wake   chan struct{} // poked by SetScript: ends a blocked Accept so that the new script takes effect
-	gen    int64         // incremented by SetScript: ends a refusal window
+	Name     string
+	clock    *Clock
+	mu       sync.Mutex
+	ln       net.Listener
+	addr     string
+	script   []Step
+	at       int
+	nConn    int
+	msgs     []*Msg
+	conns    map[net.Conn]bool
+	closed   bool
+	portLost bool
+	wg       sync.WaitGroup
+	events   []string
+	stopCh   chan struct{}
+	wake     chan struct{} // poked by SetScript: ends a blocked Accept so that the new script takes effect
+	gen      int64         // incremented by SetScript: ends a refusal window
 }
 
 // ListenRcvBuf, when > 0, is set as SO_RCVBUF on the listening socket (inherited by accepted connections), so that a peer
 // that does not read fills up after a few kilobytes and the sender blocks in write.
 var ListenRcvBuf int
 
+const soReusePort = 15 // SO_REUSEPORT on Linux (not exported by package syscall)
+
 func listen(addr string) (net.Listener, error) {
 	lc := net.ListenConfig{Control: func(network, address string, rc syscall.RawConn) error {
-		if ListenRcvBuf > 0 {
-			_ = rc.Control(func(fd uintptr) { _ = syscall.SetsockoptInt(int(fd), syscall.SOL_SOCKET, syscall.SO_RCVBUF, ListenRcvBuf) })
-		}
+		_ = rc.Control(func(fd uintptr) {
+			// lets the port holder of a refusal window be bound next to the listener (see holdPort)
+			_ = syscall.SetsockoptInt(int(fd), syscall.SOL_SOCKET, soReusePort, 1)
+			if ListenRcvBuf > 0 {
+				_ = syscall.SetsockoptInt(int(fd), syscall.SOL_SOCKET, syscall.SO_RCVBUF, ListenRcvBuf)
+			}
+		})
 		return nil
 	}}
 	return lc.Listen(context.Background(), "tcp", addr)
+}
+
+// holdPort binds a socket that never listens to addr. While it exists the kernel gives the port to nobody else (neither to a
+// bind(0) nor as the source port of an outgoing connection) and every connection attempt is answered with a reset, i.e.
+// ECONNREFUSED: a refusal window must not release the port, or a server of another scenario running on this machine
+// could get it and the agent under test would talk to a foreign upstream.
+func holdPort(addr string) (release func(), err error) {
+	ta, err := net.ResolveTCPAddr("tcp4", addr)
+	if err != nil {
+		return nil, err
+	}
+	fd, err := syscall.Socket(syscall.AF_INET, syscall.SOCK_STREAM|syscall.SOCK_CLOEXEC, 0)
+	if err != nil {
+		return nil, err
+	}
+	_ = syscall.SetsockoptInt(fd, syscall.SOL_SOCKET, soReusePort, 1)
+	sa := &syscall.SockaddrInet4{Port: ta.Port}
+	copy(sa.Addr[:], ta.IP.To4())
+	if err := syscall.Bind(fd, sa); err != nil {
+		_ = syscall.Close(fd)
+		return nil, err
+	}
+	return func() { _ = syscall.Close(fd) }, nil
 }
 
 // New starts a server on 127.0.0.1:0.
@@ -97,6 +127,14 @@ func New(name string, clock *Clock, script []Step) (*Server, error) {
 
 // Addr is the listening address (stable across refusal windows).
 func (s *Server) Addr() string { return s.addr }
+
+// PortLost reports that the server could not keep its port through a refusal window (another process may have had it):
+// nothing observed in such a run can be judged.
+func (s *Server) PortLost() bool {
+	s.mu.Lock()
+	defer s.mu.Unlock()
+	return s.portLost
+}
 
 // SetScript replaces the remaining script (used between generations).
 func (s *Server) SetScript(script []Step) {
@@ -176,6 +214,14 @@ func (s *Server) loop() {
 			s.mu.Lock()
 			ln := s.ln
 			s.mu.Unlock()
+			release, herr := holdPort(s.addr) // before the listener goes, so that the port is never free
+			if herr != nil {
+				s.note("cannot hold the port during the refusal window: %v", herr)
+				s.mu.Lock()
+				s.portLost = true
+				s.mu.Unlock()
+				release = func() {}
+			}
 			_ = ln.Close()
 			s.note("refuse %dms", st.DelayMs)
 			s.mu.Lock()
@@ -185,6 +231,7 @@ func (s *Server) loop() {
 			for time.Now().Before(end) {
 				select {
 				case <-s.stopCh:
+					release()
 					return
 				case <-time.After(2 * time.Millisecond):
 				}
@@ -204,8 +251,12 @@ func (s *Server) loop() {
 				}
 				time.Sleep(5 * time.Millisecond)
 			}
+			release()
 			if err != nil {
 				s.note("cannot re-listen: %v", err)
+				s.mu.Lock()
+				s.portLost = true
+				s.mu.Unlock()
 				return
 			}
 			s.mu.Lock()
